@@ -24,8 +24,17 @@ public:
     static status assign_thread_info(Token& token) {
         for (auto&& elem : thread_info_table_) {
             if (elem.gain_the_right()) {
-                YK_VERIF(k_load, &elem, f_epoch, 0);
-                elem.set_begin_epoch(epoch_management::get_epoch());
+                // The global epoch is loaded and the begin epoch is published in two steps. If the
+                // epoch advances in between (this slot is not yet counted by the epoch thread), a
+                // stale begin epoch would be published and objects retired with it could be
+                // released while other sessions still use them. Publish, then re-check.
+                for (;;) {
+                    YK_VERIF(k_load, &elem, f_epoch, 0);
+                    const Epoch e = epoch_management::get_epoch();
+                    elem.set_begin_epoch(e);
+                    std::atomic_thread_fence(std::memory_order_seq_cst);
+                    if (e == epoch_management::get_epoch()) { break; }
+                }
                 token = &(elem);
                 YK_VERIF(k_note, &elem, f_enter, 0);
                 return status::OK;
